@@ -21,7 +21,11 @@ class Ctx:
         if subclass_sizes:
             self.cls = type(self.cls.__name__ + 'Sub', (self.cls,),
                             {'max_leaf_size': subclass_sizes[0],
-                             'max_internal_size': subclass_sizes[1]})
+                             'max_internal_size': subclass_sizes[1],
+                             '__module__': __name__})
+            # an application's subclass is importable: records that refer to a child node of this
+            # class pickle the class by reference
+            globals()[self.cls.__name__] = self.cls
         self.is_map = F.is_map(kind)
         self.is_tree = F.is_tree(kind)
 
